@@ -32,6 +32,7 @@ Reparent(p, c)    == Do([op |-> "Reparent", p |-> p, c |-> c])
 InsertL(p, i, c)  == Do([op |-> "Insert", p |-> p, i |-> i, c |-> c])
 RemoveL(p, c)     == Do([op |-> "Remove", p |-> p, c |-> c])
 PopL(p, i)        == Do([op |-> "Pop", p |-> p, i |-> i])
+DelAtL(p, i)      == Do([op |-> "DelAt", p |-> p, i |-> i])
 DelName(p, n)     == Do([op |-> "DelName", p |-> p, n |-> n])
 DelIdx(p, n, i)   == Do([op |-> "DelIdx", p |-> p, n |-> n, i |-> i])
 CopyFromL(p, n, q) == Do([op |-> "CopyFrom", p |-> p, n |-> n, q |-> q])
@@ -47,7 +48,7 @@ Next ==
   \/ \E p \in Parents, n \in Names : AddNewL(p, n)
   \/ \E p \in Parents, c \in Obj : AddObj(p, c) \/ Reparent(p, c) \/ RemoveL(p, c)
   \/ \E p \in Parents, i \in 1..(MaxKids + 1), c \in Obj : InsertL(p, i, c)
-  \/ \E p \in Parents, i \in 1..MaxKids : PopL(p, i)
+  \/ \E p \in Parents, i \in 1..MaxKids : PopL(p, i) \/ DelAtL(p, i)
   \/ \E p \in Parents, n \in Names : DelName(p, n)
   \/ \E p \in Parents, n \in Names, i \in 1..MaxKids : DelIdx(p, n, i)
   \/ \E p, q \in Parents, n \in Names : CopyFromL(p, n, q)
